@@ -31,6 +31,7 @@ SessionKey(me, pwapp, m) ==
     ELSE "Kx:" \o me \o ":" \o pwapp \o ":" \o m.key \o ":" \o m.side
 
 \* a PAKE term this side can finish() on without an exception
+\* (k = "pakeinv": parses as {"pake_v1": hex} but is not a group element: finish() raises)
 PakeUsable(me, m) == m.k = "pake" /\ m.side # me      \* own message reflected: ReflectionThwarted
 
 \* decrypt_data(derive_phase_key(key, side, phase), body) succeeds
